@@ -168,7 +168,7 @@ impl Append for RollingFileAppender {
         let mut writer = self.writer.lock();
 
         let is_pre_process = self.policy.is_pre_process();
-        let log_writer = self.get_writer(&mut writer)?;
+        let log_writer = self.get_writer(&mut writer, false)?;
 
         if is_pre_process {
             let len = log_writer.len;
@@ -184,7 +184,7 @@ impl Append for RollingFileAppender {
 
             self.policy.process(&mut file)?;
 
-            let log_writer_new = self.get_writer(&mut writer)?;
+            let log_writer_new = self.get_writer(&mut writer, false)?;
             self.encoder.encode(log_writer_new, record)?;
             log_writer_new.flush()?;
         } else {
@@ -216,19 +216,23 @@ impl RollingFileAppender {
         }
     }
 
-    fn get_writer<'a>(&self, writer: &'a mut Option<LogWriter>) -> io::Result<&'a mut LogWriter> {
+    fn get_writer<'a>(
+        &self,
+        writer: &'a mut Option<LogWriter>,
+        first_open: bool,
+    ) -> io::Result<&'a mut LogWriter> {
         if writer.is_none() {
+            // Only the first open of a truncating appender discards existing content. The file
+            // is reopened after the policy rolled it: normally it is gone by then, but if the
+            // roll failed it still holds records that must be kept and appended to.
+            let append = self.append || !first_open;
             let file = OpenOptions::new()
                 .write(true)
-                .append(self.append)
-                .truncate(!self.append)
+                .append(append)
+                .truncate(!append)
                 .create(true)
                 .open(&self.path)?;
-            let len = if self.append {
-                file.metadata()?.len()
-            } else {
-                0
-            };
+            let len = if append { file.metadata()?.len() } else { 0 };
             *writer = Some(LogWriter {
                 file: BufWriter::with_capacity(1024, file),
                 len,
@@ -292,7 +296,7 @@ impl RollingFileAppenderBuilder {
         }
 
         // open the log file immediately
-        appender.get_writer(&mut appender.writer.lock())?;
+        appender.get_writer(&mut appender.writer.lock(), true)?;
 
         Ok(appender)
     }
